@@ -21,11 +21,32 @@ data_linear_func_matrix_dict / mapper_operated_mapping_matrix_dict, and except "
 values) all outputs must be BIT-IDENTICAL to the preload-free run.  Otherwise 1e-9 relative to the
 largest entry, and quantities behind the solver only for the positive-negative solver on
 well-conditioned systems (the positive-only solver's sensitivity is C05's business).
+
+Round 4 added two further kinds of case (design_notes/C15.md, "Round 4 hardening"):
+  kind "reuse"   ONE Preloads object, ONE SettingsInversion and (objs_mode "same") ONE dataset + list of linear
+                 objects used for two worlds A and B (= A with one ingredient changed: regularization coefficient,
+                 data, noise, func-list matrix, PSF, mask; big or ~4e-6 relative) in turn.  Between the phases the
+                 slots whose value changed are refreshed by assignment / by the public setters / by writing into
+                 the caller-owned arrays; the real objects are edited through Array2D.__setitem__, re-assignment
+                 of `.regularization`, numpy item assignment; optional decoy reads, a failed operation in between,
+                 read-only preloaded arrays, copied Preloads / settings.  Every phase is compared with the model's
+                 prediction for a FRESH machine in that phase's world and, by the oracle, with the preload-free
+                 inversion of freshly built objects.
+  kind "large"   only when the anchored source gained an integer constant (common.size_hints): worlds whose
+                 unmasked pixels / sub-pixels / frame / parameters / kernel / number of objects straddle the
+                 constant.  No model comparison; the oracle states the normal equations directly with numpy
+                 (true convolution of the mapping matrices, A^T N^-1 d, A^T N^-1 A, backward error of the
+                 solution, A s, s^T H s, log det) on both formalisms where affordable, plus preload
+                 bit-transparency at that size.
 """
 from __future__ import annotations
 
+import copy as _copy
+import functools
 import hashlib
 import itertools
+import json
+import time
 import os
 from fractions import Fraction
 
@@ -112,7 +133,15 @@ def fbits(x):
 # --------------------------------------------------------------------------------------------------
 # worlds
 # --------------------------------------------------------------------------------------------------
+@functools.lru_cache(maxsize=1 << 16)
+def _frac_str(v):
+    return float(Fraction(v))
+
+
 def _frac(v):
+    # the same strings recur tens of thousands of times per run: parse each once
+    if isinstance(v, str):
+        return _frac_str(v)
     return float(Fraction(v))
 
 
@@ -321,13 +350,237 @@ def writes_of(mat, dim, rr, cc):
 
 
 # --------------------------------------------------------------------------------------------------
+# round 4: reuse histories (one Preloads / settings / dataset / linear objects across two worlds)
+# --------------------------------------------------------------------------------------------------
+TINY = Fraction(1, 1 << 18)  # relative 3.8e-6: inside np.allclose's default rtol, far outside 1e-9
+TINY_ABS = Fraction(1, 1 << 33)  # 1.2e-10 absolute, for values that are exactly zero
+
+NON_ALT_SLOTS = [s for s in ALL_SLOTS if s not in ALT_ROUTE]
+
+# the public setter of preloads.py that (re)fills a slot
+SETTER_OF = {
+    "operated_mapping_matrix": "set_operated_mapping_matrix_with_preloads",
+    "linear_func_operated_mapping_matrix_dict": "set_linear_func_inversion_dicts",
+    "data_linear_func_matrix_dict": "set_linear_func_inversion_dicts",
+    "curvature_matrix": "set_curvature_matrix",
+    "data_vector_mapper": "set_curvature_matrix",
+    "curvature_matrix_mapper_diag": "set_curvature_matrix",
+    "mapper_operated_mapping_matrix_dict": "set_curvature_matrix",
+    "regularization_matrix": "set_regularization_matrix_and_term",
+    "log_det_regularization_matrix_term": "set_regularization_matrix_and_term",
+}
+
+# every other public derived quantity of the objects involved (read BEFORE the observed reads; all are pure)
+DECOYS_INV = [
+    "total_params", "regularization_list", "all_linear_obj_have_regularization", "mapper_edge_pixel_list",
+    "total_regularizations", "no_regularization_index_list", "mask", "mapping_matrix",
+    "operated_mapping_matrix_list", "regularization_matrix_reduced", "curvature_reg_matrix_reduced",
+    "reconstruction_reduced", "reconstruction_dict", "mapped_reconstructed_data_dict",
+    "mapped_reconstructed_image_dict", "mapped_reconstructed_image", "data_subtracted_dict",
+    "reconstruction_noise_map", "reconstruction_noise_map_dict", "regularization_weights_mapper_dict",
+    "_data_vector_mapper", "_curvature_matrix_mapper_diag", "linear_func_operated_mapping_matrix_dict",
+    "data_linear_func_matrix_dict", "mapper_operated_mapping_matrix_dict", "mapper_zero_pixel_list",
+    "curvature_reg_matrix", "log_det_curvature_reg_matrix_term", "regularization_term",
+]
+DECOYS_OTHER = ["pre.info", "pre.check_threshold", "ds.w_tilde", "ds.convolver", "ds.grids",
+                "other_formalism"]
+
+
+def apply_edit(w, e):
+    """world B of a reuse history: world A with ONE ingredient changed (pure function on the JSON spec)"""
+    w2 = json.loads(json.dumps(w))
+    k = e["kind"]
+    if k == "reg":
+        w2["objs"][e["obj"]]["reg"] = e["value"]
+    elif k in ("data", "noise"):
+        for idx, val in e["set"]:
+            w2[k][idx] = val
+    elif k == "func":
+        for r, c, val in e["set"]:
+            w2["objs"][e["obj"]]["mm"][r][c] = val
+    elif k == "psf":
+        for r, c, val in e["set"]:
+            w2["psf"][r][c] = val
+    elif k == "mask":
+        m = list(w2["mask"])
+        m[e["idx"]] = "1"
+        w2["mask"] = "".join(m)
+    else:
+        raise ValueError(k)
+    return w2
+
+
+def same_value(a, b):
+    """bitwise equality of two slot values (arrays, lists / dicts of arrays, floats, WTildeImaging, None)"""
+    if a is None or b is None:
+        return a is None and b is None
+    if hasattr(a, "curvature_preload") or hasattr(b, "curvature_preload"):
+        if not (hasattr(a, "curvature_preload") and hasattr(b, "curvature_preload")):
+            return False
+        return same_value(wt_arrays(a), wt_arrays(b))
+    if isinstance(a, dict):
+        a = list(a.values())
+    if isinstance(b, dict):
+        b = list(b.values())
+    if isinstance(a, (list, tuple)) or isinstance(b, (list, tuple)):
+        if not (isinstance(a, (list, tuple)) and isinstance(b, (list, tuple))) or len(a) != len(b):
+            return False
+        return all(same_value(x, y) for x, y in zip(a, b))
+    if isinstance(a, float) or isinstance(b, float):
+        return fbits(a) == fbits(b)
+    x, y = np.asarray(a), np.asarray(b)
+    return x.shape == y.shape and x.dtype == y.dtype and x.tobytes() == y.tobytes()
+
+
+def owned_copy(name, v, readonly=False):
+    """a caller-owned copy of a slot value in the form Preloads takes it"""
+    if v is None:
+        return None
+    if name == "w_tilde" or isinstance(v, float):
+        return v
+    if isinstance(v, dict):
+        v = list(v.values())
+    if isinstance(v, list):
+        out = {i: np.array(a, copy=True) for i, a in enumerate(v)}
+        if readonly:
+            for a in out.values():
+                a.flags.writeable = False
+        return out
+    out = np.array(v, copy=True)
+    if readonly:
+        out.flags.writeable = False
+    return out
+
+
+# --------------------------------------------------------------------------------------------------
+# round 4: large worlds (sizes on both sides of a new integer constant), judged without the model
+# --------------------------------------------------------------------------------------------------
+def ref_blur(M, ys, xs, H, W, K):
+    """TRUE convolution of every column of M (values at the unmasked pixels (ys, xs), zero elsewhere) with the
+    kernel K, gathered at the unmasked pixels:  out[p] = sum_ij full[p + half - (i, j)] * K[i, j]  (numpy only)"""
+    kh, kw = K.shape
+    hy, hx = kh // 2, kw // 2
+    n, P = M.shape
+    out = np.zeros((n, P))
+    step = max(1, int(4.0e7 // max(1, (H + 2 * hy) * (W + 2 * hx))))
+    for c0 in range(0, P, step):
+        Mc = M[:, c0:c0 + step]
+        cube = np.zeros((H + 2 * hy, W + 2 * hx, Mc.shape[1]))
+        cube[ys + hy, xs + hx, :] = Mc
+        acc = np.zeros((n, Mc.shape[1]))
+        for i in range(kh):
+            for j in range(kw):
+                if K[i, j] != 0.0:
+                    acc += K[i, j] * cube[ys + 2 * hy - i, xs + 2 * hx - j, :]
+        out[:, c0:c0 + step] = acc
+    return out
+
+
+class LargeWorld:
+    """real objects of a large case, from a compact spec (mask block, seeds) — built with numpy"""
+
+    def __init__(self, aa, spec):
+        self.aa = aa
+        self.spec = spec
+        H, W = spec["h"], spec["w"]
+        y0, x0, bh, bw = spec["block"]
+        n = spec["n"]
+        yy, xx = np.meshgrid(np.arange(y0, y0 + bh), np.arange(x0, x0 + bw), indexing="ij")
+        yy, xx = yy.ravel(), xx.ravel()
+        keep = ((yy * 7 + xx * 3) % 11) != 0 if spec.get("holes") else np.ones(len(yy), bool)
+        yy, xx = yy[keep][:n], xx[keep][:n]
+        assert len(yy) == n, "mask block too small for the requested number of unmasked pixels"
+        m = np.ones((H, W), dtype=bool)
+        m[yy, xx] = False
+        self.m = m
+        self.ys, self.xs = np.nonzero(~m)  # row-major = slim order
+        self.n = n
+        ps = tuple(spec.get("pixel_scales", (1.0, 0.5)))
+        rng = np.random.default_rng(spec["seed"])
+        self.data_native = rng.integers(-24, 41, size=(H, W)) / 8.0
+        self.noise_native = rng.integers(2, 13, size=(H, W)) / 4.0
+        k = spec["psf"]
+        lo = -6 if k.get("signed") else 0
+        K = rng.integers(lo, 9, size=(k["kh"], k["kw"])) / 8.0
+        K[k["kh"] // 2, k["kw"] // 2] = 1.0 + float(rng.integers(0, 5)) / 8.0
+        if K.sum() == 0:
+            K[k["kh"] // 2, k["kw"] // 2] += 1.0
+        self.normalize = not k.get("signed")
+        self.K_raw = K
+        self.K = K / K.sum() if self.normalize else K
+        self.mask = aa.Mask2D(mask=m, pixel_scales=ps)
+        self.ds = aa.Imaging(
+            data=aa.Array2D.no_mask(values=self.data_native, pixel_scales=ps),
+            noise_map=aa.Array2D.no_mask(values=self.noise_native, pixel_scales=ps),
+            psf=aa.Kernel2D.no_mask(values=K, pixel_scales=ps),
+            use_normalized_psf=self.normalize).apply_mask(mask=self.mask)
+        self.d = self.data_native[self.ys, self.xs]
+        self.sig = self.noise_native[self.ys, self.xs]
+        self.objs, self.mms, self.overrides, self.dims, self.regs = [], [], [], [], []
+        for o in spec["objs"]:
+            reg = None if o.get("reg") is None else aa.reg.Constant(coefficient=_frac(o["reg"]))
+            if o["kind"] == "mapper":
+                ovs = aa.OverSamplerUniform(mask=self.mask, sub_size=o.get("sub", 1))
+                grid = ovs.over_sampled_grid
+                mesh = aa.mesh.Rectangular(shape=tuple(o["shape"]))
+                mg = mesh.mapper_grids_from(mask=self.mask, border_relocator=None, source_plane_data_grid=grid)
+                obj = aa.Mapper(mapper_grids=mg, over_sampler=ovs, regularization=reg)
+                self.mms.append(None)  # taken from the mapper (C06's business) when the reference is built
+                self.overrides.append(None)
+                self.dims.append(o["shape"][0] * o["shape"][1])
+            else:
+                r2 = np.random.default_rng(o["seed"])
+                p = o["p"]
+                mm = r2.integers(-8 if o.get("signed") else 0, 13, size=(n, p)) / 8.0
+                for c in range(p):
+                    mm[(c * 3 + 1) % n, c] = (16 + c % 7) / 8.0
+                ov = ref_blur(mm, self.ys, self.xs, H, W, self.K) if o.get("override") else None
+                obj = aa.m.MockLinearObjFuncList(parameters=p, grid=aa.Grid2D.from_mask(mask=self.mask),
+                                                 mapping_matrix=mm, regularization=reg,
+                                                 operated_mapping_matrix_override=ov)
+                self.mms.append(mm)
+                self.overrides.append(ov)
+                self.dims.append(p)
+            self.regs.append(reg is not None)
+            self.objs.append(obj)
+        self.P = sum(self.dims)
+        self.no_reg_idx = []
+        pos = 0
+        for d_, r in zip(self.dims, self.regs):
+            if not r:
+                self.no_reg_idx += list(range(pos, pos + d_))
+            pos += d_
+
+    def reference(self, diag_value):
+        """the normal equations stated directly: A = true convolution of the mapping matrices,
+        D = A^T (d / sigma^2), F = A^T diag(sigma^-2) A (+ the diagonal term at unregularized parameters)"""
+        H, W = self.spec["h"], self.spec["w"]
+        blocks = []
+        for obj, mm, ov in zip(self.objs, self.mms, self.overrides):
+            if ov is not None:
+                blocks.append(ov)
+                continue
+            M = np.array(obj.mapping_matrix, dtype=np.float64) if mm is None else mm
+            blocks.append(ref_blur(M, self.ys, self.xs, H, W, self.K))
+        A = np.hstack(blocks)
+        Aw = A / self.sig[:, None]
+        F = Aw.T @ Aw
+        for i in self.no_reg_idx:
+            F[i, i] += diag_value
+        D = A.T @ (self.d / self.sig ** 2)
+        return A, D, F
+
+
+# --------------------------------------------------------------------------------------------------
 class C15(PropertyCheck):
     pid = "C15"
     title = "preload transparency"
     nontrivial_rule = (
         "a case is non-trivial when at least one preload slot is filled that the running formalism "
         "consults, the history has >= 2 inversions and the preload-free reference inversion succeeds; "
-        "distinct = distinct (world, settings, slot subset, source, history)"
+        "distinct = distinct (world, settings, slot subset, source, history); a reuse history counts when at "
+        "least two phases ran; a large case when the numpy statement of the normal equations and the preload "
+        "steps were both evaluated"
     )
     exhaustive_note = {
         "quick": "the configuration space {all 32 subsets of the five slots named in the statement (w_tilde, "
@@ -691,6 +944,714 @@ class C15(PropertyCheck):
                    "slots": [s for s in ALL_SLOTS if rng.random() < 0.4], "source": "same",
                    "wt_kind": rng.choice(["fresh", "dataset"]),
                    "history": self._history(rng, rng.randint(1, k), rng.choice(["canonical", "permuted", "partial"]))}
+        # 10. reuse histories: one Preloads / settings (/ dataset / linear objects) across two worlds
+        yield from self._reuse_cases(tier, rng, unusual_for, tagged)
+        # 11. the direct numpy statement of the normal equations (the oracle of the large stream) at ordinary
+        #     sizes in every run, one world per size dimension: keeps that oracle exercised on the unchanged tree
+        #     and is independent of any state the library shares between 'fresh' objects
+        for rep_ in range({"quick": 1, "escalated": 1}.get(tier, 4)):
+            for dim, size in (("pixels", rng.randint(100, 180)), ("sub", rng.randint(200, 400)),
+                              ("frame", rng.choice([1200, 1500, 1716, 2030])), ("params", rng.randint(40, 90)),
+                              ("kernel", rng.choice([15, 21, 35, 45])), ("objs", rng.randint(4, 8))):
+                c = self._large_case(dim, size, size, rng)
+                if c is not None:
+                    yield {**{k: v for k, v in c.items() if k != "_cost"}, "tag": f"direct_{dim}"}
+
+    # ================================================================== round 4: reuse histories
+    @staticmethod
+    def _tiny(v):
+        v = Fraction(v)
+        return str(v * (1 + TINY)) if v != 0 else str(TINY_ABS)
+
+    def _edit(self, rng, w, kind, tiny):
+        """one change of world A (descriptor with the exact new values), or None when `kind` does not apply"""
+        H, W = w["h"], w["w"]
+        unm = [i for i, c in enumerate(w["mask"]) if c == "0"]
+        if kind == "reg":
+            cand = [j for j, o in enumerate(w["objs"]) if o.get("reg") is not None]
+            if not cand:
+                return None
+            j = rng.choice(cand)
+            v = Fraction(w["objs"][j]["reg"])
+            return {"kind": "reg", "obj": j, "value": self._tiny(v) if tiny else str(v * rng.choice([4, 3]))}
+        if kind in ("data", "noise"):
+            idxs = rng.sample(unm, min(len(unm), rng.randint(1, 3)))
+            out = []
+            for i in idxs:
+                v = Fraction(w[kind][i])
+                if tiny:
+                    out.append([i, self._tiny(v)])
+                else:
+                    out.append([i, str(v + Fraction(3, 2)) if kind == "data" else str(v * 2)])
+            return {"kind": kind, "set": out}
+        if kind == "func":
+            cand = [j for j, o in enumerate(w["objs"]) if o["kind"] == "func"]
+            if not cand:
+                return None
+            j = rng.choice(cand)
+            mm = w["objs"][j]["mm"]
+            n = len(unm)
+            r, c = rng.randrange(min(n, len(mm))), rng.randrange(len(mm[0]))
+            v = Fraction(mm[r][c])
+            return {"kind": "func", "obj": j, "set": [[r, c, self._tiny(v) if tiny else str(v + Fraction(5, 8))]]}
+        if kind == "psf":
+            kh, kw = len(w["psf"]), len(w["psf"][0])
+            r, c = rng.randrange(kh), rng.randrange(kw)
+            v = Fraction(w["psf"][r][c])
+            return {"kind": "psf", "set": [[r, c, self._tiny(v) if tiny else str(v + Fraction(3, 8))]]}
+        if kind == "mask":
+            if len(unm) < 6:
+                return None
+            return {"kind": "mask", "idx": rng.choice(unm)}
+        raise ValueError(kind)
+
+    EDIT_KINDS = ["reg", "noise", "data", "func", "psf", "mask"]
+    PHASE_ORDERS = [["a", "b", "a"], ["a", "b"], ["b", "a", "b"], ["a", "b", "b", "a"], ["b", "a"]]
+
+    @staticmethod
+    def _mix_supports(mix, kind, w):
+        if w and all(c[0] != "m" for c in mix):
+            return False
+        if kind == "reg":
+            return any(c in ("m", "fr") for c in mix)
+        if kind == "func":
+            return any(c[0] == "f" and c != "fo" for c in mix)
+        return True
+
+    def _reuse_cases(self, tier, rng, unusual_for, tagged):
+        """10. one Preloads object / one SettingsInversion / (optionally) one dataset and one list of linear
+        objects, used for two different worlds A and B in turn.  Every phase's reads are compared with a FRESH
+        computation for that phase's world.
+
+        Per repetition every (kind of change, formalism) once — a pair of worlds (A, B = A with one ingredient
+        changed) on a mix that supports it — and four histories on each pair:
+          0  Preloads-centred: every slot filled, B's slots refreshed partially (assign / public setter / in place)
+          1  objects-centred: an EMPTY Preloads, the same dataset + linear objects edited in place where the
+             change allows it (nothing short-circuits the computation that reads them), A, B, A
+          2  fault then reuse: the five slots of the statement, an operation that raises between the phases
+          3  seeded random everything
+        plus the in-place path (a single regularized mapper: `F += H` into the cached curvature matrix) with
+        every kind of failed operation in both formalisms."""
+        reps = {"quick": 2, "escalated": 3}.get(tier, 10)
+        k_inv = 2
+        tiny_off = rng.randrange(2)
+        pair = 0
+
+        def histories(world, edit, tiny, settings_w, unusual, plan):
+            opts = {**self._opts(rng, world), "pos": rng.choice([False, False, None])}
+            can_same = edit["kind"] in ("reg", "data") or (
+                edit["kind"] == "func" and not world["objs"][edit["obj"]].get("override"))
+            refreshes = ["assign", "setter", "inplace", "assign"]
+            rng.shuffle(refreshes)
+            faults = ["bad_reg_shape", "raising_obj"] + (["foreign_w_tilde"] if settings_w else [])
+            for j, fault in plan:
+                entry = opts["entry"]
+                if j == 0:
+                    slots, mode, order_x = list(NON_ALT_SLOTS), "rebuild", rng.choice(self.PHASE_ORDERS)
+                elif j == 1:
+                    slots, mode, order_x = [], ("same" if can_same else "rebuild"), rng.choice(
+                        [["a", "b", "a"], ["b", "a", "b"]])
+                    entry = None
+                elif j == 2:
+                    slots, mode, order_x = list(CORE), ("same" if can_same and rng.random() < 0.5 else "rebuild"), \
+                        rng.choice(self.PHASE_ORDERS)
+                else:
+                    slots = [s for s in ALL_SLOTS if rng.random() < 0.5]
+                    mode, order_x = ("same" if can_same and rng.random() < 0.5 else "rebuild"), \
+                        rng.choice(self.PHASE_ORDERS)
+                refresh = refreshes[j]
+                phases = []
+                for p_i, x in enumerate(order_x):
+                    style = "canonical" if j == 1 else rng.choice(["canonical", "permuted", "partial"])
+                    ph = {"w": x, "history": self._history(rng, rng.randint(1, k_inv), style)}
+                    if rng.random() < 0.3:
+                        ph["decoy"] = rng.sample(DECOYS_INV, rng.randint(3, 10)) + \
+                            rng.sample(DECOYS_OTHER, rng.randint(0, 3))
+                    if p_i >= 1 and (j == 2 and p_i == 1 or j == 3 and rng.random() < 0.25):
+                        ph["fault"] = fault if (j == 2 and fault in faults) else rng.choice(faults)
+                    phases.append(ph)
+                yield {"tag": tagged("reuse_" + edit["kind"] + ("_tiny" if tiny else ""), unusual),
+                       "kind": "reuse", "world": world, "edit": edit, "settings_w": settings_w,
+                       **{**opts, "entry": entry},
+                       "pre_use_w": None, "slots": slots, "source": "same", "wt_kind": "fresh",
+                       "refresh": refresh, "objs_mode": mode,
+                       "readonly": refresh == "assign" and rng.random() < 0.5,
+                       "derive": j != 1 and rng.random() < 0.25,
+                       "phases": phases, "history": [a for ph in phases for a in ph["history"]]}
+
+        def make_pair(mix, kind, tiny, unusual):
+            world = self._world(rng, mix, unusual)
+            world["int_inputs"] = False  # edits are not integer-valued
+            if kind == "func":  # the edited func list computes its own operated matrix
+                for o, code in zip(world["objs"], mix):
+                    if code in ("f", "fr"):
+                        o["override"] = False
+            for knd in [kind] + self.EDIT_KINDS:
+                edit = self._edit(rng, world, knd, tiny)
+                if edit is not None and not (knd == "func" and world["objs"][edit["obj"]].get("override")):
+                    return world, edit
+            raise AssertionError("no applicable change")
+
+        fault_rot = ["bad_reg_shape", "raising_obj", "foreign_w_tilde"]
+        for rep in range(reps):
+            for kind in self.EDIT_KINDS:
+                for settings_w in (False, True):
+                    cands = [m for m in self.MIXES if self._mix_supports(m, kind, settings_w)]
+                    mix = ["m"] if (["m"] in cands and rng.random() < 0.3) else rng.choice(cands)
+                    tiny = (pair // 2 + pair + rep + tiny_off) % 2 == 0
+                    unusual = UNUSUAL_PSF and rng.random() < 0.5
+                    world, edit = make_pair(mix, kind, tiny, unusual)
+                    yield from histories(world, edit, tiny, settings_w, unusual,
+                                         [(0, None), (1, None), (2, fault_rot[(pair + rep) % 3]), (3, None)])
+                    pair += 1
+            # the in-place path: one regularized mapper, every failed operation, both formalisms
+            for settings_w in (False, True):
+                kind = self.EDIT_KINDS[(rep + tiny_off + int(settings_w)) % len(self.EDIT_KINDS)]
+                world, edit = make_pair(["m"], kind, rep % 2 == 0, False)
+                yield from histories(world, edit, rep % 2 == 0, settings_w, False,
+                                     [(2, f) for f in fault_rot if settings_w or f != "foreign_w_tilde"])
+
+    # -- running a reuse history ---------------------------------------------------------------------
+    def _fresh_w_tilde(self, wd, foreign=False):
+        from autoarray.dataset.imaging.w_tilde import WTildeImaging
+        from autoarray.inversion.inversion.imaging import inversion_imaging_util
+
+        noise_native = np.array(wd.ds.noise_map.native)
+        if foreign:
+            noise_native = noise_native * 2.0
+        cp, ix, ln = inversion_imaging_util.w_tilde_curvature_preload_imaging_from(
+            noise_map_native=noise_native, kernel_native=np.array(wd.ds.psf.native),
+            native_index_for_slim_index=np.array(wd.ds.mask.derive_indexes.native_for_slim))
+        nv = wd.ds.noise_map[0] * (2.0 if foreign else 1.0)
+        return WTildeImaging(curvature_preload=cp, indexes=ix.astype("int"), lengths=ln.astype("int"),
+                             noise_map_value=nv)
+
+    def _apply_inplace(self, aa, wd, spec_from, spec_to, edit):
+        """move the REAL objects of `wd` from world `spec_from` to `spec_to` through the public in-place routes:
+        Array2D.__setitem__ on the dataset's data, re-assignment of a linear object's regularization, numpy
+        item assignment on the caller-owned mapping matrix of a func list"""
+        k = edit["kind"]
+        if k == "reg":
+            j = edit["obj"]
+            wd.objs[j].regularization = aa.reg.Constant(coefficient=_frac(spec_to["objs"][j]["reg"]))
+        elif k == "data":
+            mask = spec_to["mask"]
+            for idx, _ in edit["set"]:
+                slim = sum(1 for c in mask[:idx] if c == "0")
+                wd.ds.data[slim] = _frac(spec_to["data"][idx])
+        elif k == "func":
+            j = edit["obj"]
+            for r, c, _ in edit["set"]:
+                wd.objs[j].mapping_matrix[r, c] = _frac(spec_to["objs"][j]["mm"][r][c])
+        else:
+            raise ValueError(f"in-place edit of {k}")
+        wd.spec = spec_to
+
+    def _fits_of(self, aa, case, spec):
+        fits = []
+        for _ in range(2):
+            wd = World(aa, spec)
+            inv = aa.Inversion(dataset=wd.ds, linear_obj_list=wd.objs, settings=wd.settings(case["settings_w"], case))
+            read_all(inv, ACCESSES)
+            fits.append(aa.m.MockFitImaging(dataset=wd.ds, noise_map=wd.ds.noise_map, inversion=inv))
+        return fits
+
+    @staticmethod
+    def _decoy_reads(aa, names, inv, pre, wd, case, other_settings):
+        done = []
+        for nm in names:
+            try:
+                if nm == "other_formalism":
+                    if other_settings is not None:
+                        o = aa.Inversion(dataset=wd.ds, linear_obj_list=wd.objs, settings=other_settings)
+                        read_all(o, ACCESSES)
+                elif nm.startswith("pre."):
+                    getattr(pre, nm[4:])
+                elif nm.startswith("ds."):
+                    getattr(wd.ds, nm[3:])
+                else:
+                    v = getattr(inv, nm)
+                    if isinstance(v, dict):
+                        list(v.values())
+                done.append(nm)
+            except Exception as e:  # several of them are documented to raise for some mixes; not judged
+                done.append(f"{nm}!{type(e).__name__}")
+        return done
+
+    def _fault(self, aa, kind, case, wd, st, pre, vals, eff_w, dim):
+        """an operation on the shared objects that raises in the middle; everything is restored afterwards"""
+        try:
+            if kind == "bad_reg_shape":
+                if "regularization_matrix" not in vals:
+                    return "n/a"
+                keep = pre.regularization_matrix
+                pre.regularization_matrix = np.zeros((dim + 1, dim + 1))
+                try:
+                    inv = make_inversion(aa, wd, case, st, preloads=pre)
+                    inv.curvature_reg_matrix
+                    inv.reconstruction
+                    return "no exception"
+                finally:
+                    pre.regularization_matrix = keep
+            if kind == "foreign_w_tilde":
+                if "w_tilde" not in vals or not eff_w:
+                    return "n/a"
+                keep = pre.w_tilde
+                pre.w_tilde = self._fresh_w_tilde(wd, foreign=True)
+                try:
+                    inv = make_inversion(aa, wd, case, st, preloads=pre)
+                    read_all(inv, ACCESSES)
+                    return "no exception"
+                finally:
+                    pre.w_tilde = keep
+            if kind == "raising_obj":
+                base_cls = aa.m.MockLinearObjFuncList
+
+                class Raising(base_cls):
+                    @property
+                    def mapping_matrix(self):
+                        raise RuntimeError("user function failed")
+
+                bad = Raising(parameters=1, grid=aa.Grid2D.from_mask(mask=wd.mask), mapping_matrix=None)
+                ds = wd.dataset_for(case)
+                inv = aa.Inversion(dataset=ds, linear_obj_list=wd.objs + [bad], settings=st, preloads=pre)
+                for a in ("mapping_matrix", "data_vector", "curvature_matrix", "curvature_reg_matrix",
+                          "reconstruction"):
+                    try:
+                        getattr(inv, a)
+                    except Exception:
+                        pass
+                return "raised"
+        except Exception as e:
+            return type(e).__name__
+        return "n/a"
+
+    def _run_reuse(self, aa, case):
+        from autoarray import exc
+
+        specs = {"a": case["world"], "b": apply_edit(case["world"], case["edit"])}
+        wcs = {x: world_cfg(specs[x]) for x in "ab"}
+        eff_w = factory_choice(wcs["a"], case["settings_w"], None)
+        sub = {x: {**case, "world": specs[x]} for x in "ab"}
+        refs = {x: self._reference(sub[x], eff_w) for x in "ab"}
+        if refs["a"] is None or refs["b"] is None:
+            raise Skip("a preload-free reference inversion raises InversionException")
+        st = settings_of(aa, case["settings_w"], case)  # ONE settings object for the whole history
+        other_st = None if wcs["a"]["all_func_lists"] else settings_of(aa, not eff_w, case)
+        worlds = {}
+        same = case["objs_mode"] == "same"
+
+        def world_for(x):
+            if same:
+                if "w" not in worlds:
+                    worlds["w"], worlds["cur"] = World(aa, specs[x]), x
+                if worlds["cur"] != x:
+                    self._apply_inplace(aa, worlds["w"], specs[worlds["cur"]], specs[x], case["edit"])
+                    worlds["cur"] = x
+                return worlds["w"]
+            if x not in worlds:
+                worlds[x] = World(aa, specs[x])
+            return worlds[x]
+
+        ro = bool(case.get("readonly"))
+
+        def target(x, wd):
+            out = {}
+            for s in case["slots"]:
+                if s == "w_tilde":
+                    out[s] = self._fresh_w_tilde(World(aa, specs[x]))
+                    continue
+                v = refs[x]["slots"].get(s)
+                if v is not None:
+                    out[s] = v
+            return out
+
+        pre = None
+        cur_target = {}
+        phases_obs = []
+        for ph in case["phases"]:
+            x = ph["w"]
+            wd = world_for(x)
+            tgt = target(x, wd)
+            setter_errors = []
+            if pre is None:
+                pre = aa.Preloads(**{s: owned_copy(s, v, ro) for s, v in tgt.items()})
+            else:
+                if case.get("derive"):
+                    # objects derived by copying carry whatever private state the originals had
+                    pre = _copy.copy(pre)
+                    st = _copy.deepcopy(st)
+                changed = [s for s in ALL_SLOTS
+                           if (s in tgt or s in cur_target) and not same_value(tgt.get(s), cur_target.get(s))]
+                how = case["refresh"]
+                if how == "setter" and changed:
+                    called = []
+                    fits = self._fits_of(aa, case, specs[x])
+                    self._keep_alive = fits
+                    for s in changed:
+                        m = SETTER_OF.get(s)
+                        if m and m not in called:
+                            called.append(m)
+                            try:
+                                getattr(pre, m)(fit_0=fits[0], fit_1=fits[1])
+                            except (IndexError, NotImplementedError) as e:
+                                setter_errors.append(f"{m}: {type(e).__name__}")
+                    for s in changed:  # what no setter refreshed (w_tilde; a slot its setter left alone)
+                        cur = getattr(pre, s)
+                        if cur is not None and same_value(cur, cur_target.get(s)) and not same_value(cur, tgt.get(s)):
+                            setattr(pre, s, owned_copy(s, tgt.get(s)))
+                elif how == "inplace":
+                    for s in changed:
+                        cur, new = getattr(pre, s), tgt.get(s)
+                        if isinstance(cur, np.ndarray) and new is not None and cur.shape == np.shape(new):
+                            cur[...] = new  # the caller edits its own array in place
+                        elif isinstance(cur, dict) and isinstance(new, list) and len(cur) == len(new) and all(
+                                cur[i].shape == np.shape(new[i]) for i in range(len(new))):
+                            for i in range(len(new)):
+                                cur[i][...] = new[i]
+                        else:
+                            setattr(pre, s, owned_copy(s, new))
+                else:
+                    for s in changed:
+                        setattr(pre, s, owned_copy(s, tgt.get(s), ro))
+            cur_target = tgt
+            vals = {s: getattr(pre, s) for s in ALL_SLOTS if getattr(pre, s, None) is not None}
+            fp0 = {s: fingerprint(s, v) for s, v in vals.items() if s in ARRAY_SLOTS}
+            heap, pre_refs = [], {}
+            for s in ALL_SLOTS:
+                if s not in vals:
+                    continue
+                if s == "log_det_regularization_matrix_term":
+                    pre_refs[s] = fbits(vals[s])
+                else:
+                    pre_refs[s] = len(heap)
+                    heap.append(slot_cell(s, vals[s]))
+            fault = None
+            if ph.get("fault"):  # after the fingerprints: a failed operation must not touch the preloads either
+                fault = self._fault(aa, ph["fault"], case, wd, st, pre, vals, eff_w, wcs[x]["dim"])
+            steps, classes, decoys = [], [], []
+            for accs in ph["history"]:
+                try:
+                    inv = make_inversion(aa, wd, case, st, preloads=pre)
+                    classes.append(type(inv).__name__)
+                    if ph.get("decoy"):
+                        decoys = self._decoy_reads(aa, ph["decoy"], inv, pre, wd, case, other_st)
+                    out = [read(inv, a) for a in accs]
+                except exc.InversionException:
+                    out = "inversion_exception"
+                changed_fp = sorted(s for s in fp0 if fingerprint(s, vals[s]) != fp0[s])
+                steps.append({"out": out, "changed": changed_fp})
+            phases_obs.append({
+                "w": x, "filled": sorted(vals), "pre_use_w": pre.use_w_tilde, "classes": sorted(set(classes)),
+                "steps": steps, "setter_errors": setter_errors, "fault": fault, "decoys": decoys,
+                "base": refs[x]["base"],
+                "_model": {"heap": heap, "preloads": pre_refs, "coarse": refs[x]["coarse"],
+                           "tables": self._merged_tables({eff_w: refs[x]})},
+            })
+        return {"kind": "reuse", "eff_w": eff_w, "pre_use_w": None, "phases": phases_obs,
+                "filled": sorted({s for p in phases_obs for s in p["filled"]}),
+                "steps": [s for p in phases_obs for s in p["steps"]]}
+
+    def _phase_case(self, case, ph, x):
+        spec = case["world"] if x == "a" else apply_edit(case["world"], case["edit"])
+        return {**case, "world": spec, "history": ph["history"]}
+
+    def _oracle_reuse(self, case, obs):
+        eff_w = obs["eff_w"]
+        key = "w" if eff_w else "m"
+        want_cls = "InversionImagingWTilde" if eff_w else "InversionImagingMapping"
+        for k, (ph, po) in enumerate(zip(case["phases"], obs["phases"])):
+            where = (f"reuse history, phase {k + 1}/{len(case['phases'])} (world {po['w'].upper()}, "
+                     f"change={case['edit']['kind']}, refresh={case['refresh']}, objects={case['objs_mode']}"
+                     f"{', Preloads/settings copied' if case.get('derive') else ''}"
+                     f"{', decoy reads first' if ph.get('decoy') else ''}"
+                     f"{', after a failed operation (' + ph['fault'] + ')' if ph.get('fault') else ''}): ")
+            if po["classes"] and po["classes"] != [want_cls]:
+                return False, where + f"factory built {po['classes']}, expected {want_cls}"
+            pc = self._phase_case(case, ph, po["w"])
+            exact = self._exact(pc, po)
+            ok, detail = self._oracle_steps(pc, po, po["base"], exact, key,
+                                            (not pos_eff(case)) and self._well_conditioned(po["base"]))
+            if not ok:
+                return False, where + "every filled slot holds the value computed from this phase's identical " \
+                                      "dataset and linear objects, yet " + detail
+        return True, ""
+
+    # ================================================================== round 4: large worlds
+    LARGE_DIMS = ["pixels", "sub", "frame", "params", "kernel", "objs"]
+    LARGE_CASE_S = 16.0   # estimated pure-Python seconds a single large case may cost
+    LARGE_TOTAL_S = 55.0  # … and all of them together
+    W_TILDE_MAX_S = 7.0   # the other formalism is run too while its tables are affordable
+    LARGE_W_CASE_S = 45.0  # one w-tilde-only case per constant at the size c + c//3 + 1, run last
+
+    @staticmethod
+    def _factor(n, lo=3):
+        """(a, b), a != b, a * b == n, both >= lo, as close to 2:3 as possible; None when there is none"""
+        best = None
+        for a in range(lo, int(n ** 0.5) + 1):
+            if n % a == 0 and n // a != a and n // a >= lo:
+                b = n // a
+                score = abs(a / b - 2 / 3)
+                if best is None or score < best[0]:
+                    best = (score, a, b)
+        return None if best is None else (best[1], best[2])
+
+    def _large_case(self, dim, size, c, rng):
+        """a case whose `dim` size is `size` (all other sizes modest), with its estimated cost; None = infeasible"""
+        if size < 1:
+            return None
+        seed = rng.randrange(1 << 30)
+        kh, kw = rng.choice([(3, 5), (5, 3), (3, 3)])
+        signed = rng.random() < 0.6
+        n, H, W, block = None, None, None, None
+        objs = [{"kind": "mapper", "shape": list(rng.choice([(3, 4), (4, 3), (4, 5)])), "sub": 1, "reg": "1"}]
+        extra = rng.choice([[], [{"kind": "func", "p": 2, "seed": seed + 1, "signed": True, "reg": None,
+                                  "override": rng.random() < 0.5}]])
+        mesh_lo = 3
+        if dim == "pixels":
+            n = size
+            objs += extra
+        elif dim == "sub":
+            sub = rng.choice([2, 3])
+            n = max(6, -(-size // (sub * sub)))  # n * sub^2 >= size > (n-1) * sub^2
+            objs[0]["sub"] = sub
+        elif dim == "frame":
+            n = 60
+            f = self._factor(size, lo=16)
+            if f is None:
+                W = rng.choice([17, 19, 23])
+                H = size // W
+                if H < 16:
+                    return None
+                # H*W < size: the largest non-square frame not above the size; one more row would pass it
+            else:
+                H, W = f if rng.random() < 0.5 else (f[1], f[0])
+            objs += extra
+        elif dim == "params":
+            # a non-square mesh a x b (both >= 3) plus, where size has no such factorisation, up to three
+            # func-list columns: mesh pixels + columns = size parameters exactly
+            best = None
+            k_func = rng.choice([0, 2])  # with / without a func list next to the mesh
+            for a in range(3, int(size ** 0.5) + 2):
+                b = (size - k_func) // a
+                rem = size - k_func - a * b
+                if b >= 3 and b != a and rem <= 3:
+                    score = (rem > 0, abs(min(a, b) / max(a, b) - 2 / 3))
+                    if best is None or score < best[0]:
+                        best = (score, a, b, rem)
+            if best is None:
+                return None
+            _, a, b, rem = best
+            objs = [{"kind": "mapper", "shape": [a, b] if rng.random() < 0.5 else [b, a], "sub": 1, "reg": "1"}]
+            if rem + k_func:
+                objs.append({"kind": "func", "p": rem + k_func, "seed": seed + 1, "signed": True, "reg": None,
+                             "override": False})
+            n = max(150, min(600, size // 3))
+        elif dim == "kernel":
+            cands = [(a, b) for a in range(1, 40, 2) for b in range(1, 40, 2) if a * b == size and a != b]
+            if not cands:
+                cands = [(a, b) for a in range(3, 40, 2) for b in range(3, 40, 2)
+                         if a != b and a * b <= size and (a + 2) * b > size and abs(a - b) <= 6]
+                if not cands:
+                    return None
+            kh, kw = rng.choice(cands)
+            n = 90
+            objs += extra
+        elif dim == "objs":
+            if size < 2 or size > 96:
+                return None
+            n = 80
+            objs = [{"kind": "mapper", "shape": [3, 3], "sub": 1, "reg": "1"}] + [
+                {"kind": "func", "p": 1, "seed": seed + 1 + k, "signed": k % 2 == 0,
+                 "reg": None, "override": k % 3 == 0} for k in range(size - 1)]
+        if len(objs) > 1 and rng.random() < 0.5:
+            objs = objs[1:] + objs[:1]  # func lists BEFORE the mapper: blocks land in the other triangle
+        my, mx = max(kh // 2, 1), max(kw // 2, 1)
+        if block is None:
+            if H is None:
+                # a non-square block hugging the top-left margin exactly (footprints touch the frame edge)
+                need = n * 11 // 10 + 12  # room for the hole pattern
+                bw = rng.choice([29, 37, 41, 53]) if n > 400 else rng.choice([7, 9, 11])
+                bh = -(-need // bw)
+                H, W = bh + 2 * my + rng.choice([0, 1, 3]), bw + 2 * mx + rng.choice([0, 2, 5])
+            else:
+                bw = min(W - 2 * mx, 13)
+                bh = -(-(n * 11 // 10 + 12) // bw)
+                if bh > H - 2 * my or bw < 3:
+                    return None
+            block = [my, mx, bh, bw]
+        P = sum(o["shape"][0] * o["shape"][1] if o["kind"] == "mapper" else o["p"] for o in objs)
+        sub_total = n * max(o.get("sub", 1) for o in objs) ** 2
+        # without numba the w-tilde tables cost ~1.3e-6 s per PAIR of unmasked pixels (+ the kernel overlaps)
+        cost_w = n * n * 1.3e-6 + n * (2 * kh - 1) * (2 * kw - 1) * kh * kw * 2.0e-6 + n * P * 4.0e-6
+        forms = [False] + ([True] if cost_w <= self.W_TILDE_MAX_S and P <= 700 else [])
+        cost = (0.4 + n * 6.0e-4 + H * W * 2.0e-5 + sub_total * 3.0e-5 + n * P * 3.0e-6 * (kh * kw / 9.0)
+                + (P / 1000.0) ** 3 * 6.0 + len(objs) * 0.02)
+        if True in forms:
+            cost += cost_w
+        slots = rng.choice([list(CORE), ["curvature_matrix", "regularization_matrix"],
+                            ["operated_mapping_matrix", "curvature_matrix"],
+                            ["regularization_matrix", "log_det_regularization_matrix_term", "w_tilde"]])
+        return {"tag": f"large_{dim}", "kind": "large", "dim": dim, "size": size, "hint": c,
+                "spec": {"h": H, "w": W, "block": block, "n": n, "holes": True,
+                         "pixel_scales": rng.choice([[1.0, 0.5], [0.25, 0.75], [2.0, 2.0]]),
+                         "psf": {"kh": kh, "kw": kw, "signed": signed}, "seed": seed, "objs": objs},
+                "forms": forms, "settings_w": False, "pos": False, "diag_value": "1/100", "pre_use_w": None,
+                "slots": slots, "source": "same", "wt_kind": "dataset",
+                "history": [list(ACCESSES), ["curvature_reg_matrix", "reconstruction", "curvature_matrix",
+                                             "data_vector", "mapped_reconstructed_data",
+                                             "log_det_curvature_reg_matrix_term"]],
+                "_cost": cost}
+
+    def generate_large(self, hints, rng):
+        """for every new integer constant c of the anchored source: worlds whose size in EVERY dimension the
+        inversions loop over — unmasked pixels (rows of the mapping matrix), total sub-pixels, frame pixels H·W
+        (non-square), total parameters (mesh pixels + func-list columns), kernel pixels, number of linear
+        objects — is c + c//3 + 1 (a non-multiple above), 2c + 1, c + 1, c, c − 1; sizes above c first, cheap
+        before expensive, within an estimated budget of pure-Python time.  No model comparison: the oracle
+        states the normal equations directly with numpy (see _run_large)."""
+        plans = []
+        for c in sorted(set(int(x) for x in hints)):
+            for pr, size in ((0, c + c // 3 + 1), (1, 2 * c + 1), (2, c + 1), (3, c), (3, c - 1)):
+                for dim in self.LARGE_DIMS:
+                    case = self._large_case(dim, size, c, rng)
+                    if case is not None and case["_cost"] <= self.LARGE_CASE_S:
+                        plans.append((pr, case["_cost"], len(plans), case))
+        plans.sort(key=lambda t: t[:3])
+        total = 0.0
+        last = []
+        for pr, cost, _k, case in plans:
+            if total + cost > self.LARGE_TOTAL_S:
+                continue
+            total += cost
+            yield {k: v for k, v in case.items() if k != "_cost"}
+            if pr == 0 and case["dim"] == "pixels" and True not in case["forms"]:
+                # the w-tilde formalism ALONE at the non-multiple size above c: its tables cost n^2 without
+                # numba, so it runs last and only while it is affordable at all
+                n = case["spec"]["n"]
+                if n * n * 1.3e-6 <= self.LARGE_W_CASE_S:
+                    last.append({**{k: v for k, v in case.items() if k != "_cost"}, "tag": "large_pixels_w_tilde",
+                                 "forms": [True], "history": case["history"][1:]})
+        yield from last
+
+    def _run_large(self, aa, case):
+        from autoarray import exc
+
+        L = LargeWorld(aa, case["spec"])
+        diag = _frac(case["diag_value"])
+        A, D, F = L.reference(diag)
+        P = L.P
+        keep = [i for i in range(P) if i not in set(L.no_reg_idx)]
+        has_reg = any(L.regs)
+        obs = {"kind": "large", "n": L.n, "frame": [case["spec"]["h"], case["spec"]["w"]], "params": P,
+               "sub_pixels": L.n * max(o.get("sub", 1) for o in case["spec"]["objs"]) ** 2,
+               "kernel": [case["spec"]["psf"]["kh"], case["spec"]["psf"]["kw"]], "objs": len(L.objs),
+               "forms": {}, "filled": [], "eff_w": False, "pre_use_w": None}
+
+        def inf(a):
+            a = np.asarray(a, dtype=np.float64)
+            return float(np.max(np.abs(a))) if a.size else 0.0
+
+        for w_form in case["forms"]:
+            fo = {"checks": [], "steps": [], "classes": []}
+            obs["forms"]["w" if w_form else "m"] = fo
+            st = settings_of(aa, w_form, case)
+            try:
+                inv = aa.Inversion(dataset=L.ds, linear_obj_list=L.objs, settings=st)
+                fo["classes"].append(type(inv).__name__)
+                v = {a: np.array(getattr(inv, a), dtype=np.float64, copy=True) for a in ACCESSES}
+            except exc.InversionException:
+                fo["err"] = "inversion_exception"
+                continue
+
+            def chk(name, err, scale, tol=1e-9):
+                fo["checks"].append([name, float(err), float(tol * max(1.0, scale))])
+
+            Hm = v["regularization_matrix"].reshape(P, P) if v["regularization_matrix"].size == P * P \
+                else np.zeros((P, P))
+            s = v["reconstruction"]
+            FH = F + Hm if has_reg else F
+            chk("operated_mapping_matrix = true convolution of the mapping matrices",
+                inf(v["operated_mapping_matrix"] - A), inf(A))
+            chk("data_vector = A^T (d / sigma^2)", inf(v["data_vector"] - D), inf(D))
+            chk("curvature_matrix = A^T diag(sigma^-2) A (+ diagonal term)", inf(v["curvature_matrix"] - F), inf(F))
+            chk("curvature_reg_matrix = F + H", inf(v["curvature_reg_matrix"] - FH), inf(FH))
+            rowsum = float(np.max(np.sum(np.abs(FH), axis=1)))
+            chk("reconstruction solves (F + H) s = D (backward error)", inf(FH @ s - D),
+                rowsum * inf(s) + inf(D))
+            chk("mapped_reconstructed_data = A s", inf(v["mapped_reconstructed_data"] - A @ s),
+                float(np.max(np.sum(np.abs(A), axis=1))) * inf(s))
+            if has_reg:
+                Hr, sr = Hm[np.ix_(keep, keep)], s[keep]
+                chk("regularization_term = s^T H s", abs(float(v["regularization_term"]) - float(sr @ Hr @ sr)),
+                    float(np.abs(sr) @ np.abs(Hr) @ np.abs(sr)))
+                if len(keep) <= 400:
+                    FHr = FH[np.ix_(keep, keep)]
+                    ev = np.linalg.eigvalsh((FHr + FHr.T) / 2.0)
+                    if ev[0] > 0 and ev[-1] / ev[0] < 1.0e4:
+                        ld = float(np.sum(np.log(ev)))
+                        chk("log_det_curvature_reg_matrix_term = log det (F + H)",
+                            abs(float(v["log_det_curvature_reg_matrix_term"]) - ld), abs(ld))
+            # preload transparency at this size: slots taken from the fresh reads, shared by successive inversions
+            vals = {}
+            for sname in case["slots"]:
+                if sname == "w_tilde":
+                    if w_form:
+                        vals[sname] = L.ds.w_tilde
+                elif sname == "log_det_regularization_matrix_term":
+                    vals[sname] = float(v[sname])
+                elif sname == "operated_mapping_matrix":
+                    vals[sname] = np.array(inv.operated_mapping_matrix, copy=True)
+                elif sname in ("curvature_matrix", "regularization_matrix"):
+                    vals[sname] = v[sname].reshape(P, P).copy()
+            pre = aa.Preloads(**vals)
+            fo["filled"] = sorted(vals)
+            obs["filled"] = sorted(set(obs["filled"]) | set(vals))
+            fp0 = {sn: fingerprint(sn, x) for sn, x in vals.items() if sn in ARRAY_SLOTS}
+            for accs in case["history"]:
+                step = {"mismatch": [], "changed": []}
+                try:
+                    inv2 = aa.Inversion(dataset=L.ds, linear_obj_list=L.objs, settings=st, preloads=pre)
+                    for a in accs:
+                        got = np.array(getattr(inv2, a), dtype=np.float64, copy=True)
+                        if got.shape != v[a].shape or got.tobytes() != v[a].tobytes():
+                            dlt = inf(got - v[a]) if got.shape == v[a].shape else float("inf")
+                            step["mismatch"].append([a, dlt])
+                except exc.InversionException:
+                    step["mismatch"].append(["inversion_exception", float("inf")])
+                step["changed"] = sorted(sn for sn in fp0 if fingerprint(sn, vals[sn]) != fp0[sn])
+                fo["steps"].append(step)
+        return obs
+
+    def _oracle_large(self, case, obs):
+        around = f" around the new constant {case['hint']}" if case.get("hint") != case.get("size") else ""
+        where = (f"world with {case['dim']} = {case['size']}{around} ("
+                 f"{obs['n']} unmasked pixels, frame {obs['frame']}, {obs['params']} parameters, "
+                 f"{obs['sub_pixels']} sub-pixels, kernel {obs['kernel']}, {obs['objs']} linear objects), judged by the "
+                 f"direct numpy statement of the normal equations: ")
+        forms = obs["forms"]
+        if len(forms) == 2 and ("err" in forms["m"]) != ("err" in forms["w"]):
+            return False, where + "(c) one formalism raises InversionException, the other returns values"
+        for key, fo in forms.items():
+            name = "w-tilde" if key == "w" else "mapping"
+            want = "InversionImagingWTilde" if key == "w" else "InversionImagingMapping"
+            if fo["classes"] and fo["classes"] != [want]:
+                return False, where + f"factory built {fo['classes']}, expected {want}"
+            if "err" in fo:
+                continue
+            for nm, err, tol in fo["checks"]:
+                if not err <= tol:
+                    return False, where + (f"(c) {name} formalism: {nm} violated, |Δ|={err:.3e} > {tol:.3e} — the "
+                                           f"value differs from what both formalisms must compute")
+            for i, st in enumerate(fo["steps"]):
+                if st["changed"]:
+                    return False, where + (f"(b) {name} formalism: after inversion {i + 1} the preloaded array(s) "
+                                           f"{st['changed']} have different bytes than before")
+                if st["mismatch"]:
+                    a, dlt = st["mismatch"][0]
+                    return False, where + (f"(a) {name} formalism: {a} with preloads {fo.get('filled')} (inversion "
+                                           f"{i + 1}) is not bit-identical to the preload-free value (max |Δ|={dlt:.3e})")
+        return True, ""
 
     # ------------------------------------------------------------------ reference runs (no preloads)
     def _reference(self, case, w_form):
@@ -928,6 +1889,10 @@ class C15(PropertyCheck):
 
         if case.get("kind") == "relocated_grid":
             return self._run_relocated(aa, case)
+        if case.get("kind") == "large":
+            return self._run_large(aa, case)
+        if case.get("kind") == "reuse":
+            return self._run_reuse(aa, case)
         w = case["world"]
         wc = world_cfg(w)
         refs = {False: self._reference(case, False)}
@@ -1073,11 +2038,25 @@ class C15(PropertyCheck):
             raise Skip("implementation error observation")
         if obs.get("kind") == "relocated_grid":
             return []  # mapper-level preload: outside Model.Preload, judged by the oracle only
+        if obs.get("kind") == "large":
+            return []  # sizes the driver is not meant for: the oracle alone judges (normal equations, numpy)
+        if obs.get("kind") == "reuse":
+            # one request per phase: the model predicts every read of the phase for a FRESH machine whose heap
+            # holds the Preloads' arrays as they are at the start of the phase, in that phase's world
+            reqs = []
+            for ph, po in zip(case["phases"], obs["phases"]):
+                if po["_model"]["coarse"]:
+                    raise Skip(po["_model"]["coarse"])
+                reqs.append(self._history_request(self._phase_case(case, ph, po["w"]), po, po["_model"]))
+            return reqs
         mdl = obs["_model"]
         if mdl is None:
             return []
         if mdl["coarse"]:
             raise Skip(mdl["coarse"])
+        return [self._history_request(case, obs, mdl)]
+
+    def _history_request(self, case, obs, mdl):
         wc = world_cfg(case["world"])
         cfg = {k: v for k, v in wc.items() if not k.startswith("_")}
         cfg["settings_use_w_tilde"] = case["settings_w"]
@@ -1090,16 +2069,27 @@ class C15(PropertyCheck):
         ext = dict(mdl["tables"])
         if case["wt_kind"] == "foreign" and "w_tilde" in mdl["preloads"]:
             ext["wt_check"] = list(ext.get("wt_check", [])) + [[mdl["heap"][mdl["preloads"]["w_tilde"]], False]]
-        return [{"op": "c15.history", "cfg": cfg, "policy": POLICY, "ext": ext, "heap": mdl["heap"],
-                 "preloads": pre, "history": case["history"]}]
+        return {"op": "c15.history", "cfg": cfg, "policy": POLICY, "ext": ext, "heap": mdl["heap"],
+                "preloads": pre, "history": case["history"]}
 
     def model_obs(self, case, responses):
+        if case.get("kind") == "reuse":
+            return {"phases": [({"err": r["err"]} if "err" in r else r["ok"]) for r in responses]}
         r = responses[0]
         if "err" in r:
             return {"err": r["err"]}
         return r["ok"]
 
     def compare(self, case, obs, mobs, cmp):
+        if obs.get("kind") == "reuse":
+            for k, (ph, po, mo) in enumerate(zip(case["phases"], obs["phases"], mobs["phases"])):
+                d = self._compare_one(self._phase_case(case, ph, po["w"]), {**po, "eff_w": obs["eff_w"]}, mo, cmp)
+                if d:
+                    return f"reuse history phase {k + 1} (world {po['w'].upper()}): {d}"
+            return None
+        return self._compare_one(case, obs, mobs, cmp)
+
+    def _compare_one(self, case, obs, mobs, cmp):
         if obs.get("_model") is None:
             return None
         if "err" in mobs:
@@ -1169,6 +2159,10 @@ class C15(PropertyCheck):
             return False, f"implementation raised {obs.get('err')}: {obs.get('msg', '')}"
         if obs.get("kind") == "relocated_grid":
             return self._oracle_steps(case, obs, obs["base"], True, "relocated_grid", False)
+        if obs.get("kind") == "large":
+            return self._oracle_large(case, obs)
+        if obs.get("kind") == "reuse":
+            return self._oracle_reuse(case, obs)
         wc = world_cfg(case["world"])
         eff_w = factory_choice(wc, case["settings_w"], obs["pre_use_w"])
         key = "w" if eff_w else "m"
@@ -1235,6 +2229,10 @@ class C15(PropertyCheck):
 
     # ------------------------------------------------------------------ misc
     def nontrivial(self, case, obs):
+        if "err" in obs:
+            return False
+        if obs.get("kind") == "large":
+            return any(fo.get("checks") and fo.get("steps") for fo in obs["forms"].values())
         if "err" in obs or len(case["history"]) < 2 or not obs.get("steps"):
             return False
         if obs.get("kind") == "relocated_grid":
@@ -1248,7 +2246,59 @@ class C15(PropertyCheck):
                                      "mapper_operated_mapping_matrix_dict"}
         return bool(set(obs["filled"]) & (consulted_w if obs["eff_w"] else consulted_m))
 
+    def _shrink_reuse(self, case):
+        for key in ("readonly", "derive"):
+            if case.get(key):
+                yield {**case, key: False}
+        phs = case["phases"]
+
+        def with_phases(p):
+            return {**case, "phases": p, "history": [a for ph in p for a in ph["history"]]}
+
+        for i, ph in enumerate(phs):
+            for key in ("fault", "decoy"):
+                if ph.get(key):
+                    yield with_phases([({k: v for k, v in q.items() if k != key} if j == i else q)
+                                       for j, q in enumerate(phs)])
+        if len(phs) > 1:
+            yield with_phases(phs[:-1])
+            yield with_phases(phs[1:])
+        for i, ph in enumerate(phs):
+            if len(ph["history"]) > 1:
+                yield with_phases([({**q, "history": q["history"][:-1]} if j == i else q) for j, q in enumerate(phs)])
+            for a_i, accs in enumerate(ph["history"]):
+                if len(accs) > 1:
+                    for r in range(len(accs)):
+                        h = [list(a) for a in ph["history"]]
+                        del h[a_i][r]
+                        yield with_phases([({**q, "history": h} if j == i else q) for j, q in enumerate(phs)])
+        for s in case["slots"]:
+            yield {**case, "slots": [x for x in case["slots"] if x != s]}
+        if case["objs_mode"] == "same":
+            yield {**case, "objs_mode": "rebuild"}
+        if case["refresh"] != "assign":
+            yield {**case, "refresh": "assign"}
+        if case["pos"] is not False:
+            yield {**case, "pos": False}
+        if case.get("diag_value") is not None:
+            yield {**case, "diag_value": None}
+        if case.get("entry"):
+            yield {**case, "entry": None}
+
     def shrink(self, case):
+        if case.get("kind") == "large":
+            # the size is the point; only the preload part can go
+            if len(case["forms"]) > 1:
+                for f in case["forms"]:
+                    yield {**case, "forms": [f]}
+            if len(case["history"]) > 1:
+                yield {**case, "history": case["history"][:1]}
+            for s in case["slots"]:
+                yield {**case, "slots": [x for x in case["slots"] if x != s]}
+            return
+        if case.get("kind") == "reuse":
+            yield from self._shrink_reuse(case)
+            return
         # fewer slots, shorter history, fewer reads, canonical settings
         for s in case["slots"]:
             if case.get("kind") != "relocated_grid":
@@ -1289,9 +2339,15 @@ class C15(PropertyCheck):
             t.append("C15.slot_transparency")
         if case["pre_use_w"] is not None:
             t.append("C15.formalism_choice_no_value")
+        if case.get("kind") == "reuse":
+            t.append("C15.outputs_independent_of_history")
+        if case.get("kind") == "large":
+            t.append("C15.formalisms_agree_on_all_outputs")
         return t
 
     def sample_view(self, case):
+        if case.get("kind") == "large":
+            return dict(case)  # compact by construction: block, seeds and shapes, never the arrays
         w = case["world"]
         v = {k: x for k, x in case.items() if k != "world"}
         v["world"] = w
